@@ -26,6 +26,8 @@ type World struct {
 	Misc     map[string]string
 	LC       interface{}
 	clock    int
+	// OnQuit is what handler step 'S' does: the scenario's way of calling Shutdown from inside a handler
+	OnQuit func()
 }
 
 func newWorld() *World {
@@ -213,6 +215,14 @@ func (d *disp) VarlinkDispatch(ctx context.Context, c varlink.Call, method strin
 			err := c.GetParameters(&p)
 			log("G:" + errStr(err))
 			c.Reply(ctx, p)
+		case 'S':
+			// a Quit method: the handler itself shuts the service down, then goes on (replies, returns)
+			if w.OnQuit != nil {
+				w.OnQuit()
+			} else {
+				w.S.Shutdown()
+			}
+			log("S:done")
 		case 'Z':
 		default:
 			return c.ReplyMethodNotFound(ctx, method)
